@@ -3,7 +3,7 @@ CONSTANTS
   KS = 1
   KR = 1
   Mags = {"n", "g"}
-  Saturate = FALSE
+  Saturate = TRUE
 VIEW View
 INVARIANTS C07
 PROPERTIES ClosedAfterSign
